@@ -894,3 +894,21 @@ package leveldb
 //@   safety off
 //@   requires tr.closed
 //@   ensures [C18:finished-transaction] result == errTransactionDone && calls("storage.Storage.Create") == old(calls("storage.Storage.Create")) && calls("storage.Storage.Remove") == old(calls("storage.Storage.Remove")) && calls("storage.Storage.Rename") == old(calls("storage.Storage.Rename")) && calls("storage.Storage.SetMeta") == old(calls("storage.Storage.SetMeta"))
+
+// ---------------------------------------------------------------------------
+// C06: where a flushed memdb may be placed. "No overlap" answers must be right (an overlooked overlap puts two
+// tables with a common user key into one level); a spurious "overlaps" only costs a level.
+//@ spec func numsOK(tf ref) bool = forall i int :: 0 <= i && i < len(tf) ==> (numof(tf[i].imax) <= keyMaxNum && numof(tf[i].imin) <= keyMaxNum)
+//@ func (tFiles).searchMax
+//@   props C06 C01
+//@   abstract keys
+//@   requires sortedDisjoint(tf)
+//@   ensures [partition-point] 0 <= result && result <= len(tf) && (forall j int :: 0 <= j && j < result ==> ikcmp(tf[j].imax, ikey) < 0) && (forall j int :: result <= j && j < len(tf) ==> ikcmp(tf[j].imax, ikey) >= 0)
+//@ func (tFiles).overlaps
+//@   props C06 C01
+//@   abstract keys
+//@   safety off
+//@   requires !unsorted ==> (sortedDisjoint(tf) && numsOK(tf))
+//@   loop 1
+//@     invariant forall j int :: 0 <= j && j < rangeidx ==> !ovl(tf[j], umin, umax)
+//@   ensures [C01,C06:no-overlap-means-none] !result ==> (forall i int :: 0 <= i && i < len(tf) ==> !ovl(tf[i], umin, umax))
